@@ -638,7 +638,7 @@ def fuzz_campaign(ctx):
     from ..worker import _lift_limits
     exe = build.binary("fuzz", "fuzz_compile")
     root = fuzz_setup(ctx.scratch("fuzz"))
-    runs = {"quick": 8000, "thorough": 1200000}[ctx.tier]
+    runs = {"quick": 8000, "thorough": 300000}[ctx.tier]
     before = set(os.listdir(os.path.join(root, "corpus")))
     env = dict(os.environ, VERIF_FUZZ_CONF=os.path.join(root, "fz.conf"), ASAN_OPTIONS="detect_leaks=0:abort_on_error=0:symbolize=1")
     cmd = [exe, "-max_len=8192", "-runs=%d" % runs, "-seed=%d" % ((ctx.hseed % (2 ** 31 - 2)) + 1), "-dict=" + os.path.join(root, "lpc.dict"),
